@@ -34,8 +34,11 @@ type MemLog struct {
 	Disk *LogDisk
 	Node int
 	Hook StorageHook
-	open bool
-	mem  []*raft.LogEntry
+	// Observe, if set, sees every change of the log content as it happens
+	// (monitors that must not miss states between two quiescent points).
+	Observe func(node int, op string, index uint64, entries []*raft.LogEntry)
+	open    bool
+	mem     []*raft.LogEntry
 }
 
 func NewMemLog(node int, disk *LogDisk, hook StorageHook) *MemLog {
@@ -110,6 +113,9 @@ func (l *MemLog) AppendEntries(entries []*raft.LogEntry) error {
 		l.Disk.Entries = append(l.Disk.Entries, c)
 	}
 	l.mem = append(l.mem, entries...)
+	if l.Observe != nil {
+		l.Observe(l.Node, "append", 0, entries)
+	}
 	l.hook("log.append", 1)
 	return nil
 }
@@ -125,6 +131,9 @@ func (l *MemLog) Truncate(index uint64) error {
 	li := index - l.mem[0].Index
 	l.mem = l.mem[:li]
 	l.Disk.Entries = l.Disk.Entries[:li]
+	if l.Observe != nil {
+		l.Observe(l.Node, "truncate", index, nil)
+	}
 	l.hook("log.truncate", 1)
 	return nil
 }
@@ -156,6 +165,9 @@ func (l *MemLog) DiscardEntries(index uint64, term uint64) error {
 	e := &raft.LogEntry{Index: index, Term: term}
 	l.mem = []*raft.LogEntry{e}
 	l.Disk.Entries = []raft.LogEntry{*e}
+	if l.Observe != nil {
+		l.Observe(l.Node, "discard", index, nil)
+	}
 	l.hook("log.discard", 1)
 	return nil
 }
@@ -202,8 +214,9 @@ func (s *MemState) State() (uint64, string, error) {
 // Snapshot storage.
 
 type Snap struct {
-	Meta raft.SnapshotMetadata
-	Data []byte
+	Meta  raft.SnapshotMetadata
+	Data  []byte
+	Local bool // written by this node's own state machine (not received)
 }
 
 type SnapDisk struct {
@@ -223,6 +236,7 @@ type MemSnapFile struct {
 	off     int64
 	writing bool
 	closed  bool
+	local   bool
 }
 
 func (s *MemSnapStore) hook(op string, phase int) {
@@ -304,7 +318,7 @@ func (f *MemSnapFile) Close() error {
 	}
 	if f.writing {
 		f.store.hook("snap.close", 0)
-		f.store.Disk.Snaps = append(f.store.Disk.Snaps, &Snap{Meta: f.meta, Data: append([]byte(nil), f.buf...)})
+		f.store.Disk.Snaps = append(f.store.Disk.Snaps, &Snap{Meta: f.meta, Data: append([]byte(nil), f.buf...), Local: f.local})
 		f.closed = true
 		f.store.hook("snap.close", 1)
 		return nil
@@ -436,6 +450,9 @@ func (m *RecFSM) Snapshot(w io.Writer) error {
 	list := append([]Applied(nil), m.List...)
 	if m.Rec != nil {
 		m.Rec(FsmCall{Node: m.Node, Inst: m.Inst, Kind: "snapshot", Len: len(list), List: list})
+	}
+	if sf, ok := w.(*MemSnapFile); ok {
+		sf.local = true
 	}
 	_, err := w.Write(EncodeList(list, m.Pad))
 	return err
